@@ -104,9 +104,13 @@ func (w *c09World) opDeposit() {
 				if n, sq, ok := e.L2.AccNumSeq(u.Addr); ok {
 					msgs := []sdk.Msg{opchildtypes.NewMsgInitiateTokenWithdrawal(u.String(), "l1hookrecipient", sdk.NewCoin(l2d, math.NewInt(1)))}
 					hook = "withdraw"
-					if w.rng.Bool() {
+					switch w.rng.Intn(3) {
+					case 0:
 						msgs = append(msgs, banktypes.NewMsgSend(u.Addr, e.Users[0].Addr, sdk.NewCoins(sdk.NewCoin(l2d, math.NewInt(1<<62)))))
 						hook = "withdraw-then-fail"
+					case 1:
+						// the withdrawal is followed by a message that succeeds: still exactly one withdrawal, announced
+						msgs = append(msgs, banktypes.NewMsgSend(u.Addr, u.Addr, sdk.NewCoins(sdk.NewCoin(l2d, math.NewInt(1)))))
 					}
 					bz, err := e.L2.SignTx(u, n, sq, sim.L2ChainID, 400_000, msgs...)
 					if err != nil {
@@ -336,6 +340,11 @@ func checkC09(run *mon.Run, rng *mon.Rand, thorough bool) {
 		// a native token normally has bank metadata (display name etc.); that must not make it look bridged
 		e.L2.BK.SetDenomMetaData(e.L2.Ctx, banktypes.Metadata{Base: "unative", Display: "native", Name: "native gas token", Symbol: "NATIVE",
 			DenomUnits: []*banktypes.DenomUnit{{Denom: "unative", Exponent: 0}, {Denom: "native", Exponent: 6}}})
+		if r.Bool() {
+			d := e.L2Denom("ueth") // somebody registered bank metadata for this bridged denom before its first deposit
+			e.L2.BK.SetDenomMetaData(e.L2.Ctx, banktypes.Metadata{Base: d, Display: "eth", Name: "pre-registered", Symbol: "ETH",
+				DenomUnits: []*banktypes.DenomUnit{{Denom: d, Exponent: 0}, {Denom: "eth", Exponent: 18}}})
+		}
 		e.L2.Speculate = r.Bool()
 		if r.Bool() {
 			e.EnableShadow(r.U64())
